@@ -33,6 +33,7 @@ struct Plan {
     bool stdin_eof = false, o0 = false, ethpad = false, argorder = false;
     int addr = 0;            // 0: aa:bb:cc:dd:ee:02 / 10.0.0.2; 1..3: other destination MAC and IP address
     int port = 0;            // UDP port of the tunnel (0 = the programs' default 17220)
+    bool env_on = false;
     bool longnames = false;  // interfaces are addressed by their 15-character names
     int stackfill = 0xA5;  // byte the task stacks are pre-filled with (what a never-written local reads)
     double read0 = 0;
